@@ -210,7 +210,11 @@ def np_track_partitions(
 
     # Assuming that the time step is constant across the dataset
     # calculate dt in seconds
-    dt = float(np.diff(times[:2])[0] / np.timedelta64(1, "s"))
+    if times.size > 1:
+        dt = float(np.diff(times[:2])[0] / np.timedelta64(1, "s"))
+    else:
+        # A single time step has nothing to match, the thresholds are not used
+        dt = 0.0
 
     # Calculate maximum delta fp for sea partitions
     # as it is a function of wind speed this is a data array
